@@ -84,6 +84,11 @@ func gen(p *simrt.Tape) any {
 	}
 	// reorg head events landing exactly when the slot's attestation job is due (cancel and re-schedule of a due job)
 	pl.CoincideReorg = p.Bool()
+	// a secondary node that never answers attestation data requests (and whose client has no timeout of its own):
+	// only the strategy's cancellation ends those requests
+	if pl.DataStrategy != "" && pl.Nodes >= 2 && p.Pct(60) {
+		pl.Faults = map[string][]Outcome{"bn1/AttestationData!": {{Kind: "blackhole"}}}
+	}
 	return pl
 }
 
@@ -395,6 +400,10 @@ func init() {
 		// the goroutine that set a job up may not get the CPU again before the job has run or been withdrawn
 		if p.Pct(60) {
 			pl.StallAfterSchedulePct = []int{5, 20, 50}[p.Pick(3)]
+		}
+		// attestation jobs that are still running when the next head event (possibly a reorg) arrives
+		if p.Pct(40) {
+			pl.AttestTakes = []time.Duration{slot / 2, slot * 3 / 4, slot + time.Second}[p.Pick(3)]
 		}
 		return pl
 	}})
